@@ -38,10 +38,12 @@ class _Pending(Exception):
     pass
 
 
-def scn(sym, cov, calls, cancel=None, stop_cancel=None, eager=False, T=1, J=1, stop_twice=False):
+def scn(sym, cov, calls, cancel=None, stop_cancel=None, eager=False, T=1, J=1, stop_twice=False, foreign_worker=False):
     """calls: list of (api, kind): api in 'soon' | 'call' | 'start'; kind in 'sync' | 'coro' | 'raise' | 'block' | 'started' | 'nostart-return' | 'nostart-block' | 'nostart-raise'
     cancel: index of the call whose future is cancelled at a symbolic instant
     stop_cancel: None = leave the portal context normally after everything scripted; True/False = portal.stop(cancel_remaining=...) at a symbolic instant
+    foreign_worker: the caller threads are AnyIO worker threads of ANOTHER event loop (their thread-local token names that loop):
+        the portal must still dispatch to its own loop
     stop_twice: after that stop(), a second portal.stop(cancel_remaining=True) follows some ticks later (graceful stop first, then forced)"""
     import anyio
     import anyio._backends._asyncio as B
@@ -101,11 +103,26 @@ def scn(sym, cov, calls, cancel=None, stop_cancel=None, eager=False, T=1, J=1, s
     FT.Future = HFuture
     B.AsyncIOBackend.run_sync_from_thread = classmethod(lambda cls, func, args, token: stub_run_sync_from_thread(func, args, token))
 
+    from anyio._core._eventloop import threadlocals as _tl
+    from anyio.lowlevel import EventLoopToken
+
+    class OtherBackend:
+        """stands for the backend of another, unrelated event loop"""
+
+        @classmethod
+        def run_sync_from_thread(cls, func, args, token):
+            viol.append(("call-dispatched-to-another-event-loop", "run_sync_from_thread"))
+
+        @classmethod
+        def run_async_from_thread(cls, func, args, token):
+            viol.append(("call-dispatched-to-another-event-loop", "run_async_from_thread"))
+
+    other_token = EventLoopToken(OtherBackend, object())
+    viol: list = []
     ran = {}
     tasklog = {}  # k -> 'returned' | 'raised' | 'cancelled'
     excs = {}
     info = {}  # k -> dict(future, status_future, refused)
-    viol: list = []
     state = {"exited": False, "after_exit": 0}
 
     def bad(c, dd=None):
@@ -170,6 +187,8 @@ def scn(sym, cov, calls, cancel=None, stop_cancel=None, eager=False, T=1, J=1, s
                 return
             foreign[0] = True
             before = len(created)
+            if foreign_worker:
+                _tl.current_token = other_token
             try:
                 fn = mk(k, kind)
                 try:
@@ -193,6 +212,8 @@ def scn(sym, cov, calls, cancel=None, stop_cancel=None, eager=False, T=1, J=1, s
                     info[k]["future"] = new[-1]
             finally:
                 foreign[0] = False
+                if foreign_worker and hasattr(_tl, "current_token"):
+                    del _tl.current_token
 
         def cancel_future():
             f = info.get(cancel, {}).get("future")
@@ -325,6 +346,8 @@ def units(tier):
     add("soon coro + soon coro stop(no cancel)", [("soon", "coro"), ("soon", "coro")], stop_cancel=False)
     add("soon block + soon coro stop() then stop(cancel)", [("soon", "block"), ("soon", "coro")], stop_cancel=False, stop_twice=True)
     add("start nostart-block stop() then stop(cancel)", [("start", "nostart-block")], stop_cancel=False, stop_twice=True)
+    add("soon coro + call sync, callers are worker threads of another loop", [("soon", "coro"), ("call", "sync")], foreign_worker=True)
+    add("start started, caller is a worker thread of another loop", [("start", "started")], foreign_worker=True, cancel=0)
     add("start started", [("start", "started")])
     add("start started cancel0", [("start", "started")], cancel=0)
     add("start nostart-return", [("start", "nostart-return")])
